@@ -21,6 +21,12 @@ Oracle (tests / searcher): Fraction reference of the documented rule on the same
 exact cases; every registered method x absorb x dtype x shape class through
 `Tensor.split` (reconstruction, isometry of flagged factors, info['error'],
 bond cap, rejection); cache history dependence of `parse_split_opts`.
+Batched input (x.ndim > 2 -> generic routine on a stack; model + theorems in
+coq/C05/Batch.v): exact correspondence of the common bond and every member's
+kept values / renorm factor / error through `_trim_and_renorm_svd_result` and
+`array_split` on stacks whose members have different scales; oracle (tests):
+Fraction reference per member, accelerated 2D routine member by member,
+per-member reconstruction distance.
 """
 
 import itertools
@@ -38,7 +44,11 @@ RULE = (
     "dyadics} x max_bond {None,1..d+1} x renorm {None,0,1,2,True}; paths: numba kernels (f8,f4), numba trim, generic "
     "trim, array_split('svd'/'svd:eig'/'eigh') on P diag(s) Q^T (tall/wide/square, real/complex). A case is "
     "non-trivial when it truncates (kept < d). Oracle stream: every registered method x 12 absorb requests x 4 dtypes "
-    "x {tall, wide, rank-deficient, dim-1} through Tensor.split with random index order."
+    "x {tall, wide, rank-deficient, dim-1} through Tensor.split with random index order. Batched stream: stacks of 2..4 "
+    "descending dyadic spectra (d=2..5) each scaled by its own power of two 2^-4..2^6 (20% equal scales), batch shapes of "
+    "ndim 1..3, x 6 modes x cutoffs on / next to the tie points of EVERY member x max_bond {None,1..d+1} x renorm forms; paths: "
+    "generic trim on s of shape batch+(d,), array_split('svd'/'svd:eig'/'eigh') on stacked P diag(s) Q^T (tall/wide/square, "
+    "real/complex, absorb None/both/left/right); non-trivial when the common bond < d."
 )
 
 MODES = {1: "abs", 2: "rel", 3: "sum2", 4: "rsum2", 5: "sum1", 6: "rsum1"}
@@ -80,6 +90,22 @@ Definition chk_eig (s : list Q) (mb : Z) (descending : bool) (vals : list Q) : b
   ql_eqb (eig_shortcut_svals (rev s) mb descending) vals.
 Definition chk_rn k (s : list Q) (n rn : Z) (f : Q) (fex : bool) : bool :=
   let '(p, num, den) := n_renorm s n rn in close k fex (Qpower f p) (num / den).
+"""
+
+BATCH_HEADER = HEADER.replace("C05.Model C05.Eig.", "C05.Model C05.Eig C05.Batch.") + """
+(* one observed member: (kept values, renorm factor, exact?, error, exact?) *)
+Definition mobs := (list Q * option Q * bool * option Q * bool)%type.
+Fixpoint all_obs_ok (k : Z) (rs : list trim) (os : list mobs) : bool :=
+  match rs, os with
+  | [], [] => true
+  | r :: rs', (vals, f, fex, err, eex) :: os' => obs_ok k r vals f fex err eex && all_obs_ok k rs' os'
+  | _, _ => false
+  end.
+(* batched generic routine: every member's kept values / renorm factor / error, and the common bond *)
+Definition chk_gb k mc c mb rn (ss : list (list Q)) (raised : bool) (bond : Z) (os : list mobs) : bool :=
+  negb raised && (gb_kept (mode mc) c mb rn ss =? bond)%Z && all_obs_ok k (gb_trim (mode mc) c mb rn ss) os.
+Definition chk_eb k mc c mb (rv : pyval) ss bond os : bool :=
+  chk_gb k mc c mb (parse_renorm (mode mc) rv) ss false bond os.
 """
 
 
@@ -553,6 +579,248 @@ def e2e_case(ctx, D, add, s, mode, cutoff, cq, mb, rv, rn, desc):
          "impl_error": None if err is None else float(err)})
     check_against_spec(ctx, "array_split:" + method, {**desc, "method": method, "variant": variant, "renorm_arg": str(rv)},
                        s, mode, cq, mb, rn, sv, err, 1e-12)
+
+
+# ----------------------------------------------------------------------------
+# stage: batched / stacked inputs (x.ndim > 2 -> the generic routine on a stack of spectra)
+
+
+def obs_tuple(s, vals, err):
+    """one member's observation as a Coq `mobs` literal"""
+    vals = [fr(v) for v in vals]
+    f = None
+    if vals and s and s[0] > 0:
+        f = vals[0] / s[0]
+    fex = f is not None and short(f)
+    e = None if err is None else fr(err)
+    eex = e is not None and short(e)
+    return f"({qlist(vals)}, {qopt(f)}, {blit(fex)}, {qopt(e)}, {blit(eex)})"
+
+
+def batch_spectra(rng):
+    """2..4 descending dyadic spectra of a common length d = 2..5, each multiplied by its own power of two
+    (members of clearly different scale), repeats and trailing zeros allowed, every member non-zero"""
+    d = rng.randint(2, 5)
+    nb = rng.randint(2, 4)
+    scales = [rng.randint(-4, 6) for _ in range(nb)]
+    if rng.random() < 0.2:
+        scales = [scales[0]] * nb  # the uniform-scale class stays in the alphabet
+    specs = []
+    for k in scales:
+        base = sorted([Fr(rng.randint(0, 32), 4) for _ in range(d)], reverse=True)
+        if base[0] == 0:
+            base[0] = Fr(1, 4)
+        if rng.random() < 0.25:  # a member that is effectively rank 1 next to richer ones
+            base = [base[0]] + [v / 64 for v in base[1:]]
+        specs.append([v * Fr(2) ** k for v in base])
+    shapes = {2: [(2,), (2, 1), (1, 2)], 3: [(3,), (1, 3), (3, 1, 1)], 4: [(4,), (2, 2), (2, 1, 2)]}[nb]
+    return specs, rng.choice(shapes), scales
+
+
+def batch_cutoffs(ctx, specs, mode):
+    cs = set()
+    for s in specs:
+        cs |= set(cutoffs_for(ctx, s, mode))
+    head = [c for c in cs if c is None or c == 0]
+    rest = sorted(c for c in cs if c is not None and c != 0)
+    pick = ctx.rng.sample(rest, min(len(rest), ctx.n(3, 8)))
+    if ctx.rng.random() < 0.3:
+        pick += [ctx.rng.choice(head)]
+    return pick
+
+
+def stack_exact(rng, specs, bshape, kind, cplx, hermitian):
+    """members P_b diag(s_b) Q_b^T of one common matrix shape, stacked to bshape + (m, n)"""
+    d = len(specs[0])
+    extra = rng.randint(1, 2)
+    m, n = (d, d) if hermitian else {"tall": (d + extra, d), "wide": (d, d + extra), "square": (d, d)}[kind]
+    xs = []
+    for s in specs:
+        if hermitian:
+            P = signed_perm(rng, d, cplx)
+            xs.append(P @ np.diag([float(v) * rng.choice([1.0, -1.0]) for v in s]) @ P.conj().T)
+        else:
+            S = np.zeros((m, n))
+            S[:d, :d] = np.diag([float(v) for v in s])
+            xs.append(signed_perm(rng, m, cplx) @ S @ signed_perm(rng, n, cplx))
+    return np.stack(xs).reshape(tuple(bshape) + (m, n))
+
+
+def check_batch_against_spec(ctx, site, desc, specs, mode, cq, mb, rn, vals, errs, tol):
+    """direct property oracle (Fraction reference of the documented rule, member by member): the common bond is
+    the largest count any member needs against ITS OWN spectrum; values / error / renorm per member.  A test."""
+    name = MODES[mode]
+    want = max(spec_trim(s, mode, cq, mb, rn)[0] for s in specs)
+    bond = len(vals[0])
+    if bond != want:
+        per = [spec_trim(s, mode, cq, mb, rn)[0] for s in specs]
+        ctx.violation(f"{site}:batched:{name}:count",
+                      f"batched bond {bond}; judged against their own spectra the members need {per} -> {want}",
+                      {**desc, "kept": bond, "expected": want, "per_member_expected": per})
+        return False
+    for b, s in enumerate(specs):
+        err2 = sum((v * v for v in s[bond:]), Fr(0))
+        if errs is not None and abs(float(errs[b]) ** 2 - float(err2)) > tol * max(float(s[0]) ** 2, float(err2)):
+            ctx.violation(f"{site}:batched:{name}:member_error",
+                          f"member {b}: reported error^2 {float(errs[b]) ** 2} != discarded weight {float(err2)}",
+                          {**desc, "member": b, "reported_error": float(errs[b]), "expected_error_sq": str(err2)})
+        if bond == len(s) or rn == 0:
+            if [fr(v) for v in vals[b]] != list(s[:bond]):
+                ctx.violation(f"{site}:batched:{name}:member_values", f"member {b}: kept values are not its {bond} largest singular values",
+                              {**desc, "member": b, "got": [float(v) for v in vals[b]]})
+        else:
+            tot = sum(float(v) ** rn for v in s)
+            got = sum(float(v) ** rn for v in vals[b])
+            if abs(got - tot) > tol * tot:
+                ctx.violation(f"{site}:batched:{name}:member_renorm",
+                              f"member {b}: after renorm={rn} the sum of kept s^{rn} is {got}, not its own total {tot}",
+                              {**desc, "member": b, "got_values": [float(v) for v in vals[b]]})
+    return True
+
+
+def batched_stream(ctx):
+    """Exact correspondence of the generic routine on stacks (model: coq/C05/Batch.v gb_trim / gb_kept) through
+    (GB) `_trim_and_renorm_svd_result` called with s of shape batch + (d,), and (EB) `array_split` on stacks of
+    exact matrices (ndim 3..5, svd / svd:eig / eigh, tall / wide / square, real / complex), all six cutoff modes,
+    cutoffs on / next to the tie points of EVERY member, every bond cap and renorm form.  Oracle (tests): Fraction
+    reference per member, the accelerated 2D routine member by member, reconstruction distance per member."""
+    from quimb.tensor import decomp as D
+
+    rng = ctx.rng
+    cases, info = [], {}
+
+    def add(expr, meta):
+        cases.append((len(cases) + 1, expr))
+        info[len(cases)] = meta
+
+    for _ in range(ctx.n(16, 400)):
+        specs, bshape, scales = batch_spectra(rng)
+        d, nb = len(specs[0]), len(specs)
+        sarr = np.array([[float(v) for v in s] for s in specs])
+        for mode in MODES:
+            for cutoff in batch_cutoffs(ctx, specs, mode):
+                cq = Fr(-1) if cutoff is None else cutoff
+                cfl = float(cq)
+                mb = rng.choice([None, None] + list(range(1, d + 2)))
+                rv = rng.choice([None, None, 0, 1, 2, True])
+                rn = renorm_power(mode, rv)
+                mbi = -1 if mb is None else mb
+                desc = {"spectra": [[str(v) for v in s] for s in specs], "batch_shape": list(bshape), "log2_scales": scales,
+                        "cutoff_mode": MODES[mode], "cutoff": None if cutoff is None else str(cutoff), "max_bond": mb, "renorm": rn}
+                sslit = coqlist(specs, qlist)
+                common = f"{zlit(mode)} {qlit(cq)} {zlit(mbi)}"
+                # what the accelerated 2D routine keeps, member by member (theorem C05_batch_bond_is_max_of_member_counts)
+                n2d = [len(np.asarray(D._trim_and_renorm_svd_result_numba(np.eye(d), sarr[b].copy(), np.eye(d), cfl, mode, mbi, None, rn,
+                                                                          False, True)[1])) for b in range(nb)]
+                # (GB) generic routine called directly on the stack of spectra
+                U = np.broadcast_to(np.eye(d), tuple(bshape) + (d, d)).copy()
+                ginfo, raised = {}, None
+                try:
+                    _, gv, _ = D._trim_and_renorm_svd_result(U, sarr.reshape(tuple(bshape) + (d,)).copy(), U.copy(), cutoff=cfl, cutoff_mode=mode,
+                                                             max_bond=mbi, absorb=None, renorm=rn, info=ginfo)
+                    gv = np.asarray(gv).reshape(nb, -1)
+                    gerr = np.broadcast_to(np.asarray(ginfo["error"], dtype=float), tuple(bshape)).reshape(nb) \
+                        if np.ndim(ginfo["error"]) else np.full(nb, float(ginfo["error"]))
+                except Exception as e:
+                    raised, gv, gerr = e, np.zeros((nb, 0)), np.zeros(nb)
+                bond = gv.shape[1]
+                ctx.count(("GB", tuple(map(tuple, specs)), bshape, mode, str(cutoff), mb, rn), raised is not None or bond < d)
+                ctx.bump("batched_generic_trim")
+                ctx.bump("batched_scales_" + ("differ" if len(set(scales)) > 1 else "equal"))
+                obs = coqlist(range(nb), lambda b: obs_tuple(specs[b], gv[b], gerr[b]))
+                add(f"chk_gb 40 {common} {zlit(rn)} {sslit} {blit(raised is not None)} {zlit(bond)} {obs}",
+                    {**desc, "path": "generic_trim_batched", "impl_raised": repr(raised), "impl_bond": bond, "impl_values": gv.tolist()})
+                gdesc = {**desc, "path": "_trim_and_renorm_svd_result", "s_shape": list(bshape) + [d]}
+                if raised is not None:
+                    ctx.violation(f"trim:generic:batched:{MODES[mode]}:raised", f"generic trim raised {type(raised).__name__}: {raised}", gdesc)
+                elif check_batch_against_spec(ctx, "trim:generic", gdesc, specs, mode, cq, mb, rn, gv, gerr, 1e-12) and bond != max(n2d):
+                    ctx.violation(f"trim:generic_vs_numba:batched:{MODES[mode]}:count",
+                                  f"batched bond {bond}, the accelerated routine member by member keeps {n2d}", {**gdesc, "numba_counts": n2d})
+                # (EB) end to end through array_split
+                if rng.random() < ctx.n(0.5, 1.0):
+                    batched_e2e(ctx, D, add, specs, bshape, mode, cutoff, cq, mb, rv, rn, desc, n2d)
+    failed, errors = ctx.coq_cases("batched", BATCH_HEADER, cases, shard=ctx.n(100, 400))
+    for path, err in errors:
+        ctx.broken_obligation("correspondence:batched:" + path.split("/")[-1], err)
+    for c in failed[:6]:
+        ctx.broken_obligation("correspondence:batched_model_vs_impl", info[c])
+    if failed:
+        ctx.extra["batched_mismatches"] = len(failed)
+    for c in (1, len(cases)):
+        if c in info:
+            ctx.sample(info[c])
+    ctx.extra["batched_cases"] = len(cases)
+
+
+def batched_e2e(ctx, D, add, specs, bshape, mode, cutoff, cq, mb, rv, rn, desc, n2d):
+    rng = ctx.rng
+    d, nb = len(specs[0]), len(specs)
+    method = rng.choice(["svd", "svd", "svd:eig", "eigh"])
+    kind = rng.choice(["tall", "wide", "square"])
+    cplx = rng.random() < 0.3
+    x = stack_exact(rng, specs, bshape, kind, cplx, method == "eigh")
+    site = f"array_split:{method}"
+    edesc = {**desc, "method": method, "x_shape": list(x.shape), "complex": cplx, "renorm_arg": str(rv)}
+    D.parse_split_opts.cache_clear()
+    try:
+        _, s0, _ = D.array_split(x, method=method, absorb=None, cutoff=0.0)
+    except Exception as e:
+        ctx.violation(f"{site}:batched:raised", f"untruncated batched split raised {type(e).__name__}: {e}", edesc)
+        return
+    s0 = np.abs(np.asarray(s0)).reshape(nb, -1)
+    if [sorted((fr(v) for v in row), reverse=True) for row in s0] != [list(s) for s in specs]:
+        ctx.bump("batched_e2e_driver_not_exact_" + method)
+        return
+    absorb = rng.choice([None, None, None, "both", "left", "right"])
+    info = {}
+    kw = dict(method=method, absorb=absorb, max_bond=mb, cutoff=None if cutoff is None else float(cutoff), cutoff_mode=MODES[mode], renorm=rv)
+    if method != "eigh":
+        kw["info"] = info  # eigh takes no `info`
+    D.parse_split_opts.cache_clear()
+    try:
+        L, sv, R = D.array_split(x, **kw)
+    except Exception as e:
+        ctx.violation(f"{site}:batched:raised", f"batched split raised {type(e).__name__}: {e}", {**edesc, "absorb": absorb})
+        return
+    L, R = np.asarray(L), np.asarray(R)
+    bond = L.shape[-1]
+    ctx.count(("EB", method, kind, cplx, str(absorb), tuple(map(tuple, specs)), bshape, mode, str(cutoff), mb, str(rv)), bond < d)
+    ctx.bump("batched_e2e_" + method)
+    edesc["absorb"] = absorb
+    if L.shape[:-2] != tuple(bshape) or R.shape[:-2] != tuple(bshape) or R.shape[-2] != bond:
+        ctx.violation(f"{site}:batched:shape", f"factors have shapes {L.shape}, {R.shape} for input {x.shape}", edesc)
+        return
+    errs = None
+    if "error" in info and info["error"] is not None:
+        errs = np.broadcast_to(np.asarray(info["error"], dtype=float), tuple(bshape)).reshape(nb) if np.ndim(info["error"]) \
+            else np.full(nb, float(info["error"]))
+    mbi = -1 if mb is None else mb
+    if sv is not None:
+        svm = np.abs(np.asarray(sv)).reshape(nb, -1)
+        obs = coqlist(range(nb), lambda b: obs_tuple(specs[b], svm[b], None if errs is None else errs[b]))
+        add(f"chk_eb 40 {zlit(mode)} {qlit(cq)} {zlit(mbi)} {pyvlit(rv)} {coqlist(specs, qlist)} {zlit(bond)} {obs}",
+            {**edesc, "path": "array_split_batched:" + method, "impl_bond": bond, "impl_values": svm.tolist()})
+        ok = check_batch_against_spec(ctx, site, edesc, specs, mode, cq, mb, rn, svm, errs, 1e-12)
+        rec = (L * np.asarray(sv)[..., None, :]) @ R
+    else:
+        want = max(spec_trim(s, mode, cq, mb, rn)[0] for s in specs)
+        ok = bond == want
+        if not ok:
+            ctx.violation(f"{site}:batched:{MODES[mode]}:count", f"batched bond {bond}, the members' own rules demand {want}",
+                          {**edesc, "kept": bond, "expected": want})
+        rec = L @ R
+    if ok and bond != max(n2d):
+        ctx.violation(f"{site}:generic_vs_numba:batched:{MODES[mode]}:count",
+                      f"batched bond {bond}, the accelerated routine member by member keeps {n2d}", {**edesc, "numba_counts": n2d})
+    # honest error, member by member: ||x_b - L_b s_b R_b||^2 = weight discarded from member b (no renorm; tolerance: a test)
+    if ok and rn == 0:
+        dist = np.linalg.norm((rec - x).reshape(nb, -1), axis=1)
+        for b, s in enumerate(specs):
+            want = math.sqrt(float(sum((v * v for v in s[bond:]), Fr(0))))
+            if abs(float(dist[b]) - want) > 1e-9 * float(s[0]):
+                ctx.violation(f"{site}:batched:{MODES[mode]}:member_distance",
+                              f"member {b}: ||x - L s R|| = {float(dist[b]):.6g}, its discarded weight is {want:.6g}",
+                              {**edesc, "member": b, "distance": float(dist[b]), "expected": want})
 
 
 # ----------------------------------------------------------------------------
@@ -1247,7 +1515,8 @@ def run(ctx):
     ctx.extra["rule"] = RULE
     ctx.trusted_base += [
         "hand-written model coq/C05/Model.v of _trim_and_renorm_svd_result, _compute_number_svals_to_keep_numba, "
-        "_compute_svals_renorm_factor_numba, _trim_and_renorm_svd_result_numba, _do_absorb(_numba), parse_method_absorb, "
+        "_compute_svals_renorm_factor_numba, _trim_and_renorm_svd_result_numba, its batched form (coq/C05/Batch.v: a batch is the "
+        "list of member spectra in C order), _do_absorb(_numba), parse_method_absorb, "
         "parse_split_left_right_isom, the typed lru_cache on parse_split_opts (renorm argument); tie = correspondence evaluated in Coq on values "
         "observed in the implementation (exact rationals; tolerance 2^-40 only where the implementation takes a root)",
         "driver contract table `driver_returns` (which factor each driver returns for each absorb code): validated on the "
@@ -1260,16 +1529,16 @@ def run(ctx):
         "exact (except the final root in renorm / error, compared at 2^-40); NaN handling of the kernels is not modelled",
         "max_bond is None or >= 1 and the matrix is non-empty (documented domain); ties are stated with the code's <= "
         "(a discarded weight equal to the cutoff is discarded) although the docstrings say <",
-        "Eckart-Young optimality, accuracy of LAPACK / iterative / randomised drivers, batched SVD: oracle stream at "
-        "tolerance (tests), not theorems",
+        "Eckart-Young optimality, accuracy of LAPACK / iterative / randomised drivers (batched LAPACK included; only the "
+        "truncation bookkeeping of batched input is modelled): oracle stream at tolerance (tests), not theorems",
     ]
-    ctx.check_props(["C05/Model.vo", "C05/Proofs.vo", "C05/Trim.vo", "C05/Tables.vo", "C05/Optimal.vo", "C05/Eig.vo", "C05/Historic.vo", "C05/Props.v"])
+    ctx.check_props(["C05/Model.vo", "C05/Proofs.vo", "C05/Trim.vo", "C05/Tables.vo", "C05/Optimal.vo", "C05/Eig.vo", "C05/Batch.vo", "C05/Historic.vo", "C05/Props.v"])
     import time
 
     import os
 
     only = [s for s in os.environ.get("VERIF_C05_STAGES", "").split(",") if s]  # development aid (mutation runs)
-    for st in (trunc_stream, tables_stream, cache_stream, oracle_stream):
+    for st in (trunc_stream, tables_stream, cache_stream, oracle_stream, batched_stream):  # batched last: the earlier stages keep their random draws
         if only and st.__name__.split("_")[0] not in only:
             continue
         t0, c0 = time.time(), time.process_time()
